@@ -330,7 +330,7 @@ func (cc *checkCtx) vacuityChecks(x *Exec, fn *ssa.Function, c *Contract, res *V
 		}
 	}
 	_ = nreq
-	script := x.renderScript(x.entryFacts, True, nil)
+	script := x.renderScript(append(append([]*Term{}, x.perm...), x.entryFacts...), True, nil)
 	ans := runSolvers(script, cc.workDir, name+"#vacuity.requires", 5, nil)
 	if ans.Status == "unsat" {
 		cc.vacuity = append(cc.vacuity, "contradictory precondition: "+name)
